@@ -1,1 +1,2 @@
 pub mod ops;
+pub mod seal;
